@@ -5,6 +5,7 @@ import (
 	"go/constant"
 	"go/token"
 	"go/types"
+	"sort"
 	"strings"
 
 	"golang.org/x/tools/go/ssa"
@@ -424,6 +425,15 @@ func init() {
 				c.AnchorLost("AtomicBucketWrapArray.get/isBucketDeprecated")
 				return
 			}
+			// the condition under which isBucketDeprecated answers false, over the symbols ARRAY / NOW / BUCKET
+			depFalse := ""
+			if rs := returnsOf(dep); len(rs) == 1 && len(dep.Params) == 3 {
+				if cmp, ok := resolve(rs[0].Results[0]).(*ssa.BinOp); ok && isComparison(cmp.Op) {
+					withPathEnv(map[ssa.Value]string{dep.Params[0]: "ARRAY", dep.Params[1]: "NOW", dep.Params[2]: "BUCKET"}, func() {
+						depFalse = canonCond(cmp, false)
+					})
+				}
+			}
 			for _, ci := range c.P.StaticCallers(get) {
 				f := ci.Parent()
 				if isTestOrExample(f) {
@@ -467,6 +477,32 @@ func init() {
 							okDep = true
 						}
 					}
+					// ... or the expiry comparison itself, written out: the condition isBucketDeprecated returns, with
+					// this bucket and this function's `now` in place of its parameters, is known false here
+					if !okDep && depFalse != "" {
+						var nowPar ssa.Value
+						for _, prm := range f.Params {
+							if bt, ok := prm.Type().Underlying().(*types.Basic); ok && bt.Kind() == types.Uint64 {
+								if nowPar != nil {
+									nowPar = nil
+									break
+								}
+								nowPar = prm
+							}
+						}
+						env := map[ssa.Value]string{gv: "BUCKET"}
+						if nowPar != nil {
+							env[nowPar] = "NOW"
+						}
+						if len(f.Params) > 0 {
+							env[f.Params[0]] = "ARRAY"
+						}
+						withPathEnv(env, func() {
+							if canonFacts(ref.Block())[depFalse] {
+								okDep = true
+							}
+						})
+					}
 					c.Check(okDep, key, ref.Pos(), "a bucket from the circular array is reported without the isBucketDeprecated(now, bucket)==false guard: counts older than the window are summed")
 				}
 				if !appended {
@@ -508,14 +544,99 @@ func init() {
 					if mc, ok := stripConv(args[2]).(*ssa.MakeClosure); ok {
 						fn := mc.Fn.(*ssa.Function)
 						var binds []string
-						for _, b := range mc.Bindings {
-							if al, ok := b.(*ssa.Alloc); ok {
+						env := map[ssa.Value]string{}
+						boundName := func(v ssa.Value) string {
+							if al, ok := v.(*ssa.Alloc); ok {
 								if sv := allocSingleStore(al); sv != nil {
-									binds = append(binds, accessPath(sv))
-									continue
+									v = sv
 								}
 							}
-							binds = append(binds, accessPath(b))
+							pth := accessPath(v)
+							binds = append(binds, pth)
+							switch {
+							case strings.HasSuffix(pth, "getBucketStartRange({uint64})#0"):
+								return "LO"
+							case strings.HasSuffix(pth, "getBucketStartRange({uint64})#1"):
+								return "HI"
+							}
+							return ""
+						}
+						if strings.HasPrefix(fn.Synthetic, "bound method wrapper") && len(mc.Bindings) == 1 {
+							// `window.contains` with window := rangeType{start, end}: the predicate is the method, its receiver's
+							// fields are what the composite literal stored
+							var target *ssa.Function
+							for _, ci2 := range callsIn(fn) {
+								if t := ci2.Common().StaticCallee(); t != nil {
+									target = t
+								}
+							}
+							fieldVals := map[int]ssa.Value{}
+							if ld, ok := mc.Bindings[0].(*ssa.UnOp); ok && ld.Op == token.MUL {
+								if al, ok := ld.X.(*ssa.Alloc); ok {
+									for _, r := range refsOf(al) {
+										if fa, ok := r.(*ssa.FieldAddr); ok {
+											for _, r2 := range refsOf(fa) {
+												if st, ok := r2.(*ssa.Store); ok && st.Addr == ssa.Value(fa) {
+													if _, dup := fieldVals[fa.Field]; dup {
+														fieldVals[fa.Field] = nil
+													} else {
+														fieldVals[fa.Field] = st.Val
+													}
+												}
+											}
+										}
+									}
+								}
+							} else if al, ok := mc.Bindings[0].(*ssa.Alloc); ok { // pointer receiver: &rangeType{...}
+								for _, r := range refsOf(al) {
+									if fa, ok := r.(*ssa.FieldAddr); ok {
+										for _, r2 := range refsOf(fa) {
+											if st, ok := r2.(*ssa.Store); ok && st.Addr == ssa.Value(fa) {
+												fieldVals[fa.Field] = st.Val
+											}
+										}
+									}
+								}
+							}
+							if target != nil && len(target.Params) > 0 {
+								names := map[int]string{}
+								for k, v := range fieldVals {
+									if v != nil {
+										names[k] = boundName(v)
+									}
+								}
+								recv := ssa.Value(target.Params[0])
+								eachInstr(target, func(ins ssa.Instruction) {
+									switch x := ins.(type) {
+									case *ssa.Field:
+										if resolve(x.X) == recv && names[x.Field] != "" {
+											env[x] = names[x.Field]
+										}
+									case *ssa.FieldAddr:
+										if resolve(x.X) == recv && names[x.Field] != "" {
+											env[x] = names[x.Field]
+										} else if ld, ok := x.X.(*ssa.Alloc); ok && allocSingleStore(ld) == recv && names[x.Field] != "" {
+											env[x] = names[x.Field]
+										}
+									}
+								})
+								fn = target
+							}
+						} else {
+							for i, b := range mc.Bindings {
+								if nm := boundName(b); nm != "" && i < len(fn.FreeVars) {
+									env[fn.FreeVars[i]] = nm
+								}
+							}
+						}
+						var wsPar ssa.Value
+						for _, prm := range fn.Params {
+							if bt, ok := prm.Type().Underlying().(*types.Basic); ok && bt.Kind() == types.Uint64 {
+								wsPar = prm
+							}
+						}
+						if wsPar != nil {
+							env[wsPar] = "WS"
 						}
 						// every way in which the predicate can answer true implies start <= ws and ws <= end
 						lo, hi := true, true
@@ -534,11 +655,12 @@ func init() {
 									continue
 								}
 								nTrue++
-								fs := canonFacts(cs.block, extra...)
-								if !fs["^{uint64#0} <= {uint64}"] {
+								var fs map[string]bool
+								withPathEnv(env, func() { fs = canonFacts(cs.block, extra...) })
+								if !fs["LO <= WS"] {
 									lo = false
 								}
-								if !fs["{uint64} <= ^{uint64#1}"] {
+								if !fs["WS <= HI"] {
 									hi = false
 								}
 							}
@@ -547,7 +669,8 @@ func init() {
 							lo, hi = false, false
 						}
 						bs := strings.Join(binds, ",")
-						okPred = lo && hi && len(binds) == 2 && strings.HasSuffix(binds[0], "getBucketStartRange({uint64})#0") && strings.HasSuffix(binds[1], "getBucketStartRange({uint64})#1")
+						sort.Strings(binds)
+						okPred = lo && hi
 						c.Check(okPred, fnKey(gsb)+" / window-predicate", ci.Pos(), "buckets selected by start <= ws <= end with (start,end)=getBucketStartRange(now): lo=%v hi=%v bindings=%s", lo, hi, bs)
 					}
 				}
